@@ -333,6 +333,87 @@ mod proofs {
     fn kmul(x: u64, y: u64, m: &crate::Modulus) -> u64 { let mut o = [0u64]; polymod::dyadic_product(&[x], &[y], m, &mut o); o[0] }
     fn kadd(x: u64, y: u64, m: &crate::Modulus) -> u64 { let mut o = [x]; polymod::add_inplace(&mut o, &[y], m); o[0] }
 
+    // @harness id=C03 tier=quick unwind=14 timeout=2400 fs=4096
+    // @desc CKKS rescaling BELOW the first data level: the recorded scale is exactly the IEEE quotient of the input scale by the prime that is dropped at THAT level (not by a prime of another level), the result sits on the next level, and modulus switching (drop) at that level keeps the scale unchanged
+    // @bounds CKKS N=2, chain {97,113,193,241}: data levels {97,113,193} > {97,113} > {97}; ciphertext on the SECOND data level {97,113}; scales 2^k, 1 <= k <= 6; size 2; all canonical residues
+    // @funcs Evaluator::rescale_to_next_new, Evaluator::mod_switch_to_next_new, Evaluator::mod_switch_scale_to_next_internal, Evaluator::mod_switch_drop_to_next_internal
+    // @stubs HeContext::get_context_data -> linear search over the literal chain (HashMap lookup outside the claim); alloc::sync::Arc::drop_slow -> no-op (memory reclamation outside the claim)
+    #[kani::proof]
+    #[kani::stub(crate::context::HeContext::get_context_data, crate::context::verif_v::get_context_data_stub)]
+    #[kani::stub(alloc::sync::Arc::drop_slow, crate::verif_v::arc_drop_slow_noop)]
+    fn c03_rescale_scale_at_lower_level() {
+        let ctx = lits::ctx_ckks_n2_4p();
+        let ev = mk_evaluator(ctx.clone());
+        let first = ctx.first_context_data().unwrap();
+        let second = first.next_context_data().unwrap();
+        let pid2 = *second.parms_id(); let last = *ctx.last_parms_id();
+        assert!(second.parms().coeff_modulus().len() == 2 && pid2 != last && pid2 != *ctx.first_parms_id());
+        let a = sym2::<8>();
+        let k: u8 = kani::any(); kani::assume(k >= 1 && k <= 6);
+        let s = (1u64 << k) as f64;
+        let src = ct2(&a, pid2, true, 1, s);
+        let r = ev.rescale_to_next_new(&src);
+        kani::cover!(k == 6);
+        assert!(*r.parms_id() == last && r.size() == 2 && r.data().len() == 4 && r.is_ntt_form());
+        assert!(r.scale().to_bits() == (s / 113.0).to_bits());
+        let d = ev.mod_switch_to_next_new(&src);
+        assert!(*d.parms_id() == last && d.scale().to_bits() == s.to_bits());
+        std::mem::forget(ev); std::mem::forget(ctx); std::mem::forget(first); std::mem::forget(second);
+    }
+
+    // @harness id=C03 tier=quick unwind=14 timeout=2400 fs=4096
+    // @desc CKKS operations refuse (panic) instead of computing: squaring and multiplying when the RESULTING scale no longer fits the modulus (checked on the product, not on the operand scale), adding and subtracting operands whose scales disagree
+    // @bounds CKKS N=2, q={97} (7 bits): scale 2^4 squared / multiplied (2^8 does not fit), add and sub with scales 2 vs 4; size 2, NTT form, all canonical residues; the four requests chosen symbolically
+    // @funcs Evaluator::square_inplace, Evaluator::ckks_square, Evaluator::multiply_inplace, Evaluator::ckks_multiply, Evaluator::add_inplace, Evaluator::sub_inplace, Evaluator::translate_inplace, Evaluator::match_scale, Evaluator::is_scale_within_bounds
+    // @expect panic:Invalid argument
+    // @stubs HeContext::get_context_data -> linear search over the literal chain (HashMap lookup outside the claim); alloc::sync::Arc::drop_slow -> no-op (memory reclamation outside the claim)
+    #[kani::proof]
+    #[kani::stub(crate::context::HeContext::get_context_data, crate::context::verif_v::get_context_data_stub)]
+    #[kani::stub(alloc::sync::Arc::drop_slow, crate::verif_v::arc_drop_slow_noop)]
+    fn c03_refuses_scale_overflow_and_mismatch() {
+        let ctx = lits::ctx_ckks_n2_1p();
+        let ev = mk_evaluator(ctx.clone());
+        let pid = *ctx.first_parms_id();
+        let a = sym1::<4>(); let b = sym1::<4>();
+        let c: u8 = kani::any();
+        match c {
+            0 => { let mut x = ct1(&a, pid, true, 1, 16.0); ev.square_inplace(&mut x); }
+            1 => { let mut x = ct1(&a, pid, true, 1, 16.0); let y = ct1(&b, pid, true, 1, 16.0); ev.multiply_inplace(&mut x, &y); }
+            2 => { let mut x = ct1(&a, pid, true, 1, 2.0); let y = ct1(&b, pid, true, 1, 4.0); ev.add_inplace(&mut x, &y); }
+            _ => { let mut x = ct1(&a, pid, true, 1, 2.0); let y = ct1(&b, pid, true, 1, 4.0); ev.sub_inplace(&mut x, &y); }
+        }
+        kani::cover!(true, "AFTER: refused CKKS operation returned");
+    }
+
+    // @harness id=C03 tier=quick unwind=14 timeout=2400 fs=4096
+    // @desc CKKS squaring of a size-2 ciphertext records exactly the IEEE square of the scale and the three output polynomials are the slot-wise products (a0^2, 2*a0*a1, a1^2), when the squared scale fits
+    // @bounds CKKS N=2, q={97}; scale 2.0; size 2; all canonical residues
+    // @funcs Evaluator::square_inplace, Evaluator::ckks_square
+    // @stubs HeContext::get_context_data -> linear search over the literal chain (HashMap lookup outside the claim); alloc::sync::Arc::drop_slow -> no-op (memory reclamation outside the claim)
+    #[kani::proof]
+    #[kani::stub(crate::context::HeContext::get_context_data, crate::context::verif_v::get_context_data_stub)]
+    #[kani::stub(alloc::sync::Arc::drop_slow, crate::verif_v::arc_drop_slow_noop)]
+    fn c03_ckks_square_scale() {
+        let ctx = lits::ctx_ckks_n2_1p();
+        let ev = mk_evaluator(ctx.clone());
+        let pid = *ctx.first_parms_id();
+        let a = sym1::<4>();
+        let mut r = ct1(&a, pid, true, 1, 2.0);
+        ev.square_inplace(&mut r);
+        let q = 97u32;
+        kani::cover!(a[0] != 0 && a[2] != 0);
+        assert!(r.scale().to_bits() == 4.0f64.to_bits() && r.size() == 3 && r.data().len() == 6 && *r.parms_id() == pid);
+        let mut p = 0;
+        while p < 2 {
+            let (x, y) = (a[p] as u32, a[2 + p] as u32);
+            assert!(r.data()[p] as u32 == (x * x) % q);
+            assert!(r.data()[2 + p] as u32 == (2 * x * y) % q);
+            assert!(r.data()[4 + p] as u32 == (y * y) % q);
+            p += 1;
+        }
+        std::mem::forget(ev); std::mem::forget(ctx);
+    }
+
     fn crt2(r0: u64, r1: u64) -> u64 { // x < 97*113 with x = r0 mod 97, x = r1 mod 113; 113^-1 mod 97 = 91
         r1 + 113 * ((((r0 + 97 * 2 - r1 % 97) % 97) * 91) % 97)
     }
@@ -879,15 +960,21 @@ mod proofs {
         std::mem::forget(ev); std::mem::forget(ctx); std::mem::forget(cd); std::mem::forget(gk);
     }
 
+    /// stands for "the operation started computing": the first arithmetic step of BFV multiplication (reached only if the representation guard let the operands through)
+    fn computed_on_refused_operand(_polys: &mut [u64], _pcount: usize, _degree: usize, _tables: &[crate::util::NTTTables]) {
+        panic!("computed on an operand that had to be refused");
+    }
+
     // @harness id=C06 tier=quick unwind=14 timeout=2400 fs=4096
     // @desc operands in a representation the operation does not accept are refused: BFV multiply with exactly one operand in NTT form, BFV add with operands in different representations, BFV mod switch of an NTT-form ciphertext
     // @bounds BFV N=2, q={97,113} (chain to {97}); all canonical residues; which operand is in NTT form: both cases (concrete per arm)
     // @funcs Evaluator::multiply_inplace, Evaluator::bfv_multiply, Evaluator::add_inplace, Evaluator::mod_switch_to_next_inplace
     // @expect panic:Invalid argument
-    // @stubs HeContext::get_context_data -> linear search over the literal chain (HashMap lookup outside the claim); alloc::sync::Arc::drop_slow -> no-op (memory reclamation outside the claim)
+    // @stubs HeContext::get_context_data -> linear search over the literal chain (HashMap lookup outside the claim); alloc::sync::Arc::drop_slow -> no-op (memory reclamation outside the claim); polysmallmod::ntt_lazy_ps -> marker that panics 'computed on an operand that had to be refused' (the first arithmetic step of bfv_multiply: keeps the exploration bounded when a guard is missing)
     #[kani::proof]
     #[kani::stub(crate::context::HeContext::get_context_data, crate::context::verif_v::get_context_data_stub)]
     #[kani::stub(alloc::sync::Arc::drop_slow, crate::verif_v::arc_drop_slow_noop)]
+    #[kani::stub(crate::util::polysmallmod::ntt_lazy_ps, computed_on_refused_operand)]
     fn c06_wrong_representation_refused() {
         let ctx = lits::ctx_bfv_n2_2p1();
         let ev = mk_evaluator(ctx.clone());
